@@ -12,6 +12,7 @@
 #define VERIF_C07_TYPES_HPP
 
 #include <cstddef>
+#include <limits>
 #include <set>
 #include <type_traits>
 #include <utility>
@@ -20,6 +21,7 @@ namespace c07 {
 
 inline constexpr int MOVED  = 99;
 inline constexpr int POISON = -777;
+inline constexpr long NANV  = 1000; // encoding of a NaN held by a float / double alternative (Types.v NANV)
 
 struct Life {
     std::set<void const*> live;
@@ -119,6 +121,32 @@ struct Tracked2 {
     }
 };
 
+// a class whose DEFAULT constructor is trivial while copy / move construction and assignment are user-provided:
+// "trivially copy constructible" must be asked about T(T const&), not about T() (etl's trait of that name answers
+// for T(); variant<int, TrivDef> was not copy-constructible before the fix).  The model treats it like Tracked2
+// (a class with an explicit constructor from int); it has no conversion from Tracked.
+struct TrivDef {
+    int v;
+    TrivDef() = default;
+    explicit TrivDef(int x) noexcept : v(x) { }
+    TrivDef(TrivDef const& o) noexcept : v(o.v) { }
+    TrivDef(TrivDef&& o) noexcept : v(o.v) { o.v = MOVED; }
+    auto operator=(TrivDef const& o) noexcept -> TrivDef&
+    {
+        v = o.v;
+        return *this;
+    }
+    auto operator=(TrivDef&& o) noexcept -> TrivDef&
+    {
+        if (this != &o) {
+            v   = o.v;
+            o.v = MOVED;
+        }
+        return *this;
+    }
+};
+static_assert(std::is_trivially_default_constructible_v<TrivDef> && !std::is_trivially_copy_constructible_v<TrivDef>);
+
 // string literals of length 0..9: a char const* value is identified by the length of its string
 inline constexpr char const* g_lits[10] = {"", "x", "xx", "xxx", "xxxx", "xxxxx", "xxxxxx", "xxxxxxx", "xxxxxxxx", "xxxxxxxxx"};
 inline auto lit(long e) -> char const* { return g_lits[e < 0 ? 0 : (e > 9 ? 9 : e)]; }
@@ -187,6 +215,7 @@ C07_REL(Tracked2, Tracked2)
 C07_REL(Tracked, Tracked2)
 C07_REL(Tracked2, Tracked)
 C07_REL(Str, Str)
+C07_REL(TrivDef, TrivDef)
 #undef C07_REL
 
 // ---- type universe (ids shared with Coq: Model.ty) -------------------------------------
@@ -210,6 +239,8 @@ template <>
 inline constexpr int tid<Tracked> = 7;
 template <>
 inline constexpr int tid<Tracked2> = 8;
+template <>
+inline constexpr int tid<TrivDef> = 8; // printed (and modelled) as Tracked2
 template <>
 inline constexpr int tid<char const*> = 10;
 template <>
@@ -269,8 +300,9 @@ inline long enc(T const& x)
 {
     using U = std::remove_cv_t<T>;
     if constexpr (std::is_same_v<U, float> || std::is_same_v<U, double>) {
+        if (x != x) { return NANV; } // every NaN is the one encoded value: payloads / signs are not compared
         return static_cast<long>(x * 2);
-    } else if constexpr (std::is_same_v<U, Tracked> || std::is_same_v<U, Tracked2> || std::is_same_v<U, Str>) {
+    } else if constexpr (std::is_same_v<U, Tracked> || std::is_same_v<U, Tracked2> || std::is_same_v<U, Str> || std::is_same_v<U, TrivDef>) {
         return x.v;
     } else if constexpr (std::is_same_v<U, Base> || std::is_same_v<U, Derived>) {
         return x.v;
@@ -286,8 +318,9 @@ template <typename T>
 inline auto dec(long e) -> T
 {
     if constexpr (std::is_same_v<T, float> || std::is_same_v<T, double>) {
+        if (e == NANV) { return std::numeric_limits<T>::quiet_NaN(); }
         return static_cast<T>(static_cast<double>(e) / 2);
-    } else if constexpr (std::is_same_v<T, Tracked> || std::is_same_v<T, Tracked2>) {
+    } else if constexpr (std::is_same_v<T, Tracked> || std::is_same_v<T, Tracked2> || std::is_same_v<T, TrivDef>) {
         return T(static_cast<int>(e));
     } else if constexpr (std::is_same_v<T, Derived>) {
         return Derived(static_cast<int>(e));
@@ -310,7 +343,7 @@ inline auto dec(long e) -> T
 template <typename T>
 inline auto raw(long e)
 {
-    if constexpr (std::is_same_v<T, Tracked> || std::is_same_v<T, Tracked2>) {
+    if constexpr (std::is_same_v<T, Tracked> || std::is_same_v<T, Tracked2> || std::is_same_v<T, TrivDef>) {
         return static_cast<int>(e);
     } else if constexpr (std::is_same_v<T, Str>) {
         return lit(e);
@@ -320,7 +353,8 @@ inline auto raw(long e)
 }
 
 template <typename T>
-inline constexpr bool is_class_alt = std::is_same_v<T, Tracked> || std::is_same_v<T, Tracked2> || std::is_same_v<T, Str>;
+inline constexpr bool is_class_alt
+    = std::is_same_v<T, Tracked> || std::is_same_v<T, Tracked2> || std::is_same_v<T, Str> || std::is_same_v<T, TrivDef>;
 
 } // namespace c07
 
